@@ -160,15 +160,16 @@ def _is_xvalue(a):
 class Env(dict):
     """decl -> access path, plus .ainfo: decl -> (class, field, ftype) for aliases that designate a field"""
     def __init__(self, *a, **k):
-        super().__init__(*a, **k); self.ainfo = {}
+        super().__init__(*a, **k); self.ainfo = {}; self.clos = {}
 
 
 class Frame:
-    __slots__ = ('fn', 'env', 'this', 'modes', 'chain', 'depth', 'ctor_obj', 'ainfo')
+    __slots__ = ('fn', 'env', 'this', 'modes', 'chain', 'depth', 'ctor_obj', 'ainfo', 'clos')
 
     def __init__(self, fn, env, this, chain, depth, ctor_obj=None, ainfo=None):
         self.fn = fn; self.env = env; self.this = this; self.chain = chain; self.depth = depth
         self.modes = None; self.ctor_obj = ctor_obj
+        self.clos = dict(getattr(env, 'clos', None) or {})       # decl -> (lambda node, defining frame): closure objects held in variables
         self.ainfo = dict(ainfo or getattr(env, 'ainfo', None) or {})      # alias decl -> (class, field, ftype) of the field the alias designates
 
 
@@ -186,6 +187,7 @@ class Engine:
         self._modes = {}
         self._memo = set()
         self.reacquire = []                        # same lock acquired while held
+        self.unresolved_threads = []               # std::thread constructions whose body is not a (tracked) lambda
         self.depth_cut = []
 
     # ---- paths ------------------------------------------------------------------------------------------------
@@ -224,6 +226,9 @@ class Engine:
             if n.n('object') is not None and not n.callee_in_root and base in ELEMENT_OF:
                 return self.path_of(n.n('object'), fr) + ('*',)
             if q == 'std::get' and args: return self.path_of(args[0], fr) + ('*',)
+            if n.callee_in_root and (n.cat == 'l' or (n.type or '').endswith('*')):
+                rp = self._ret_path(n, fr)
+                if rp is not None: return rp
             if n.callee_in_root and n.n('object') is not None and (n.cat == 'l' or (n.type or '').endswith('*')):
                 # a tulz method returning a reference / pointer: something owned by (reachable from) the object
                 return self.path_of(n.n('object'), fr) + ('*',)
@@ -246,6 +251,52 @@ class Engine:
             if n.k == 'call' and (n.calleeq or '') in TRANSPARENT_STD and n.ns('args'): n = n.ns('args')[0]; continue
             return None
         return None
+
+    def closure_of(self, n, fr):
+        """(lambda node, defining frame) if expression n is a lambda or a variable / parameter / capture holding one"""
+        while n is not None:
+            if n.k == 'lambda': return (n, fr)
+            if n.k == 'ref': return fr.clos.get(n.decl)
+            if n.k == 'cast': n = n.n('sub'); continue
+            if n.k == 'call' and (n.calleeq or '') in TRANSPARENT_STD and n.ns('args'): n = n.ns('args')[0]; continue
+            if n.k == 'construct' and (n.copy or n.move) and n.ns('args'): n = n.ns('args')[0]; continue
+            return None
+        return None
+
+    def _ret_path(self, n, fr, depth=0):
+        """what a tulz callee returning a pointer / reference designates, when all its non-null returns agree: the callee's
+        reference / pointer locals are bound in declaration order and the returned expressions resolved in its frame"""
+        if fr.depth + 1 > self.max_depth or getattr(self, '_rp_depth', 0) > 3: return None
+        targets = self.facts.resolve(n)
+        if len(targets) != 1 or targets[0].body is None: return None
+        t = targets[0]
+        obj = n.n('object'); args = n.ns('args')
+        if n.ck == 'op' and 'mclass' in n.d:
+            this_path = self.path_of(args[0], fr) if args else ('?',); args = args[1:]
+        elif obj is not None: this_path = self.path_of(obj, fr)
+        else: this_path = fr.this if (t.d.get('class') and t.d.get('class') == fr.fn.d.get('class')) else ('static',)
+        self._rp_depth = getattr(self, '_rp_depth', 0) + 1
+        try:
+            sub = Frame(t, self._bind(t, args, fr, this_path), this_path, list(fr.chain) + [fr.fn.name], fr.depth + 1)
+            paths = set()
+            for x in t.body.walk():
+                if x.k == 'decl':
+                    for v in x.vars:
+                        init = Node(x.tu, v['init']) if v.get('init') and v['init'] in x.tu.ex else None
+                        if init is not None and (v.get('isref') or v.get('isptr')):
+                            p = self.path_of(init, sub)
+                            if p and p[0] not in ('?', 'tmp'): sub.env[v['decl']] = p
+                elif x.k == 'return' and x.n('sub') is not None:
+                    r = x.n('sub')
+                    while r.k == 'cast': r = r.n('sub')
+                    if r.k == 'null': continue
+                    paths.add(self.path_of(r, sub))
+            if len(paths) == 1:
+                p = next(iter(paths))
+                if p and p[0] not in ('?', 'tmp', 'local', 'new'): return p
+            return None
+        finally:
+            self._rp_depth -= 1
 
     def _is_ptr_to_obj(self, n):
         # `*p` where p is a raw pointer variable/field/this: the pointee is what the path of p already denotes
@@ -332,6 +383,9 @@ class Engine:
                                     self.events.append(('acquire', n, frozenset(L), root, list(fr.chain) + [fr.fn.name], tok))
                                 L.add(tok)
                             continue
+                    if init is not None:
+                        c = self.closure_of(init, fr)
+                        if c is not None: fr.clos[v['decl']] = c
                     # alias: reference-typed local (or single-assignment pointer) bound to a path
                     if init is not None and (v.get('isref') or v.get('isptr')):
                         p = self.path_of(init, fr)
@@ -378,6 +432,8 @@ class Engine:
         env = Env()
         for p, a in zip(callee.d['params'], call_args):
             if a is None: continue
+            c = self.closure_of(a, fr)
+            if c is not None: env.clos[p['decl']] = c
             if p.get('isref') or p.get('isptr'):
                 ap = self.path_of(a, fr)
                 env[p['decl']] = ap
@@ -402,6 +458,11 @@ class Engine:
         env = Env()
         for c in lam.captures or []:
             if 'decl' not in c: continue
+            if c.get('initcapture'):
+                init0 = Node(lam.tu, c['init']) if c.get('init') and c['init'] in lam.tu.ex else None
+                cl = self.closure_of(init0, fr) if init0 is not None else None
+                if cl is not None: env.clos[c['decl']] = cl
+            elif c['decl'] in fr.clos: env.clos[c['decl']] = fr.clos[c['decl']]
             if not c.get('initcapture') and c['decl'] in fr.ainfo and (c['mode'] == 'ref' or (c.get('vartype') or '').endswith('*') or c.get('isref')):
                 env.ainfo[c['decl']] = fr.ainfo[c['decl']]
             if c.get('initcapture'):
@@ -456,6 +517,17 @@ class Engine:
                         if lf is not None:
                             self._inline(lf, self._lambda_env(a, fr), fr.this, fr, L, root, n.shortloc())
             return
+        if q == 'std::invoke' and args and args[0] is not None:
+            c = self.closure_of(args[0], fr)
+            if c is not None:
+                lf = self.facts.lambda_fn(c[0])
+                if lf is not None:
+                    env = self._lambda_env(c[0], c[1]); b = self._bind(lf, args[1:], fr, fr.this)
+                    env.update(b); env.clos.update(b.clos); env.ainfo.update(b.ainfo)
+                    self._inline(lf, env, c[1].this, fr, L, root, n.shortloc())
+                return
+            self.opaque_calls.append((n, frozenset(L), root, chain)); self.events.append(('opaque', n, frozenset(L), root, chain, None))
+            return
         if q in STD_SYNC_ALGOS or (not n.callee_in_root and any(a is not None and a.k == 'lambda' for a in args)):
             # synchronous std algorithm: callbacks run here, with the current lockset
             for a in args:
@@ -487,11 +559,14 @@ class Engine:
                 else:
                     this_path = fr.this if t.d.get('lambda') else ('static',); call_args = args
                 if t.d.get('lambda'):
-                    # direct call of a closure object: captures resolve in the defining frame (same function)
-                    lam = self._find_lambda_node(t, fr)
-                    env = self._lambda_env(lam, fr) if lam is not None else {}
-                    env.update(self._bind(t, call_args, fr, this_path))
-                    self._inline(t, env, fr.this, fr, L, root, n.shortloc())
+                    # direct call of a closure object: captures resolve in the defining frame
+                    cl = self.closure_of(args[0], fr) if (n.ck == 'op' and args) else None
+                    if cl is not None: lam, dfr = cl
+                    else: lam, dfr = self._find_lambda_node(t, fr), fr
+                    env = self._lambda_env(lam, dfr) if lam is not None else Env()
+                    b = self._bind(t, call_args, fr, this_path)
+                    env.update(b); env.clos.update(b.clos); env.ainfo.update(b.ainfo)
+                    self._inline(t, env, dfr.this, fr, L, root, n.shortloc())
                 else:
                     self._inline(t, self._bind(t, call_args, fr, this_path), this_path, fr, L, root, n.shortloc())
             return
@@ -531,11 +606,15 @@ class Engine:
         if not record: return
         chain = list(fr.chain) + [fr.fn.name]
         if cls == 'std::thread':
-            for a in n.ns('args'):
-                if a is not None and a.k == 'lambda':
-                    lf = self.facts.lambda_fn(a)
+            found = False
+            for a in n.ns('args')[:1]:
+                c = self.closure_of(a, fr) if a is not None else None
+                if c is not None:
+                    lf = self.facts.lambda_fn(c[0])
                     if lf is not None:
-                        self.thread_roots.append((lf, self._lambda_env(a, fr), fr.this, chain, a))
+                        self.thread_roots.append((lf, self._lambda_env(c[0], c[1]), c[1].this, chain, c[0])); found = True
+            if not found and not (n.copy or n.move) and n.ns('args'):
+                self.unresolved_threads.append((n, chain))
             self.events.append(('thread', n, frozenset(L), root, chain, None))
             return
         targets = self.facts.resolve(n)
